@@ -487,6 +487,17 @@ class H2Server:
                 self.upload_credit_owed[sid] = self.upload_credit_owed.get(sid, 0) + n
             elif stream_open:
                 self._wu(sid, n)
+        elif pol == "hold-until-goaway":
+            # no upload credit at all on the origin's first connection (uploads sit in their flow-control wait when its
+            # GOAWAY arrives, and nothing but the GOAWAY wakes them); the replacement connection credits at once
+            first = bool(self.origin.conns) and self.origin.conns[0] is self.oc
+            if first and self.script.get("actions"):
+                self.conn_credit_owed += n
+                self.upload_credit_owed[sid] = self.upload_credit_owed.get(sid, 0) + n
+            else:
+                self._wu(0, n)
+                if stream_open:
+                    self._wu(sid, n)
         elif pol == "none":
             pass
 
